@@ -127,3 +127,30 @@ Proof.
     split; apply Qeq_bool_iff; assumption.
   - apply IH. apply andb_true_iff in E as [_ E]. exact E.
 Qed.
+
+(* ---------------------------------------------------------------- (5) the remaining checkers are complete too *)
+Local Open Scope Q_scope.
+
+Theorem sky_check_complete n pts : sky_ok n pts -> sky_check n pts = true.
+Proof.
+  intros [L R]. unfold sky_check. apply andb_true_iff. split; [apply Z.eqb_eq; exact L|].
+  apply forallb_forall. intros p Hp. destruct (R p Hp) as [[A B] [C D]].
+  repeat (apply andb_true_iff; split); apply Qle_bool_iff; assumption.
+Qed.
+
+Theorem chol_check_complete means M n flat out : (0 < length M)%nat ->
+  chol_ok means M n flat out -> chol_check means M n flat out = true.
+Proof.
+  intros HM [L H]. unfold chol_check. apply andb_true_iff. split; [apply Nat.eqb_eq; exact L|].
+  apply forallb_forall. intros j Hj. apply in_seq in Hj. apply andb_true_iff. split.
+  - apply Nat.eqb_eq. destruct (H j 0%nat ltac:(lia) HM) as [E _]. exact E.
+  - apply forallb_forall. intros i Hi. apply in_seq in Hi. destruct (H j i ltac:(lia) ltac:(lia)) as [_ E].
+    unfold close_b. apply Qle_bool_iff. exact E.
+Qed.
+
+Theorem sky_check_iff n pts : sky_check n pts = true <-> sky_ok n pts.
+Proof. split; [apply sky_check_sound|apply sky_check_complete]. Qed.
+
+Theorem chol_check_iff means M n flat out : (0 < length M)%nat ->
+  (chol_check means M n flat out = true <-> chol_ok means M n flat out).
+Proof. intro H. split; [apply chol_check_sound|apply chol_check_complete; exact H]. Qed.
